@@ -1,8 +1,181 @@
-import BinlogVerif.Mser.Spec
+import BinlogVerif.Lemmas.VisitRecorder
+import BinlogVerif.Lemmas.TagResolve
+import BinlogVerif.Lemmas.TagOccur
+import BinlogVerif.Lemmas.SpecSingular
 /-
-  C06 — Type tag and visitation agree with serialization.  (theorems under construction)
+  C06 — Type tag and visitation agree with serialization.
+
+  For every type `t` of the universe `Ty` whose names are "plain" (`TyOk`, see
+  `Lemmas/TagDefs.lean`) the tag string `tag t` is self-delimiting for the tag utilities of
+  `mserialize` (`tag_first_size`/`tag_pop`), the argument tag of a log statement splits back into the
+  tags of the arguments, and `mserialize::visit` driven by that tag string over the documented
+  encoding of a value `v : t` makes exactly the callbacks `events t v` and consumes exactly
+  `encode t v`.
+
+  Side conditions (all decidable except `EmptyStructsOk`, which has the decidable sufficient
+  condition `noStructDef`):
+   * `NameOk`: STRICT — a name contains none of `( ) < > { } [ ] / \ ` '`.  Names with balanced
+     brackets (template-ids like `Foo<int>`) are NOT covered by these proofs.
+   * `TyOk`: names `NameOk`, arithmetic tag chars valid, enumerator values non-empty over `0-9A-F-`,
+     at most 255 alternatives, `null` only directly below a variant.
+   * `depth t < maxRec` (the C++ recursion budget, 2048 at top level).
+   * `EmptyStructsOk full t`: a struct with zero fields has the tag `{name}`, which the C++ cannot
+     distinguish from a recursive REFERENCE to a struct `name`; it looks the name up in the full tag.
+     If the full tag contains a definition `{name`field'...}` the empty struct is visited (and
+     reported singular or not) as if it were that struct.  See PROGRESS.md for the counterexample.
 -/
 namespace BinlogVerif.C06
-open BinlogVerif BinlogVerif.Mser
+open BinlogVerif BinlogVerif.Tag BinlogVerif.Visit BinlogVerif.Mser
+
+/-! ### 1. the tag of a type is self-delimiting -/
+
+theorem c06_tag_first_size (t : Ty) (rest : Bytes) (h : TyOk t = true) (_ht : t ≠ .null ∨ true) :
+    Tag.tagFirstSize (tag t ++ rest) = (tag t).length :=
+  tagFirstSize_tag t (TyOkN.of_tyOk h) rest
+
+/-- also for the `null` alternative (tag `0`) -/
+theorem c06_tag_first_size_null (rest : Bytes) :
+    Tag.tagFirstSize (tag .null ++ rest) = (tag .null).length :=
+  tagFirstSize_tag .null rfl rest
+
+theorem c06_tag_pop (t : Ty) (rest : Bytes) (h : TyOk t = true) :
+    Tag.tagPop (tag t ++ rest) = (tag t, rest) :=
+  tagPop_tag t (TyOkN.of_tyOk h) rest
+
+/-! ### 2. the argument tags of a log statement split into the tags of the arguments -/
+
+/-- pop tags until the string is empty (or the fuel runs out): the popped tags and what is left -/
+def splitAll : Nat → Bytes → List Bytes × Bytes
+  | 0, s => ([], s)
+  | fuel + 1, s =>
+    if s.isEmpty then ([], s) else
+    let (a, r) := Tag.tagPop s
+    let (as, r') := splitAll fuel r
+    (a :: as, r')
+
+theorem c06_split_args (ts : List Ty) (h : ∀ t ∈ ts, TyOk t = true) (fuel : Nat) (hf : ts.length < fuel) :
+    splitAll fuel (tagList ts) = (ts.map tag, []) := by
+  induction ts generalizing fuel with
+  | nil =>
+    cases fuel with
+    | zero => omega
+    | succ f => simp [splitAll, tagList_nil]
+  | cons t ts ih =>
+    cases fuel with
+    | zero => omega
+    | succ f =>
+      have hne : (tag t ++ tagList ts).isEmpty = false := by
+        have := tag_ne_nil t
+        cases ht : tag t with
+        | nil => exact absurd ht this
+        | cons _ _ => rfl
+      rw [tagList_cons, splitAll, hne]
+      simp only [Bool.false_eq_true, if_false, tagPop_tag t (TyOkN.of_tyOk (h t (by simp))),
+        ih (fun x hx => h x (by simp [hx])) f (by simpa using hf), List.map_cons]
+
+/-! ### 3. visitation agrees with the value -/
+
+/-- `visit_impl` with the recording visitor, any full tag for which the empty structs of `t` do not
+    resolve, any accumulated events, any trailing input -/
+theorem c06_visit_agrees (full : Bytes) (t : Ty) (v : Val) (rest : Bytes) (maxRec : Nat)
+    (hok : TyOk t = true) (hv : hasTy t v = true) (hd : depth t < maxRec)
+    (hes : EmptyStructsOk full t) (acc : List Ev) :
+    Visit.visitImpl recorder full maxRec (tag t) acc (encode t v ++ rest)
+      = .ok (acc ++ events t v, rest) :=
+  visit_tag full t v maxRec acc rest hok hv hd hes
+
+/-- top level: `mserialize::visit(tag, recorder, encode(v))` -/
+theorem c06_visit_top (t : Ty) (v : Val) (rest : Bytes)
+    (hok : TyOk t = true) (hv : hasTy t v = true) (hd : depth t < 2048)
+    (hes : EmptyStructsOk (tag t) t) :
+    Visit.visit recorder (tag t) [] (encode t v ++ rest) = .ok (events t v, rest) := by
+  have := c06_visit_agrees (tag t) t v rest 2048 hok hv hd hes []
+  simpa [Visit.visit] using this
+
+/-- `singular(full, tag e, maxRec)` decides `singularTy`, singular types are encoded in 0 bytes -/
+theorem c06_singular (full : Bytes) (t : Ty) (maxRec : Nat) (hok : TyOk t = true) (hd : depth t < maxRec)
+    (hes : EmptyStructsOk full t) :
+    Tag.singular full (tag t) maxRec = .ok (singularTy t) :=
+  singular_tag full t maxRec (TyOkN.of_tyOk hok) hd hes
+
+theorem c06_singular_encode (t : Ty) (v : Val) (h : singularTy t = true) : encode t v = [] :=
+  encode_singular t v h
+
+/-- all values of a singular type demand the same callbacks: visiting one element of a repeated
+    singular element (as `visit_sequence` does, and as `events` specifies with the first element) is
+    right for every element -/
+theorem c06_singular_events_const (t : Ty) (v v' : Val) (hs : singularTy t = true)
+    (hv : hasTy t v = true) (hv' : hasTy t v' = true) : events t v = events t v' :=
+  events_singular t v v' hs hv hv'
+
+/-! ### 4. exactly the encoding is consumed -/
+
+theorem c06_consumes_exactly (t : Ty) (v : Val) (rest : Bytes)
+    (hok : TyOk t = true) (hv : hasTy t v = true) (hd : depth t < 2048)
+    (hes : EmptyStructsOk (tag t) t) :
+    (Visit.visit recorder (tag t) [] (encode t v ++ rest)).map (·.2) = .ok rest := by
+  rw [c06_visit_top t v rest hok hv hd hes]; rfl
+
+/-! ### `EmptyStructsOk`: sufficient conditions -/
+
+/-- no zero-field struct at all -/
+theorem c06_emptyStructsOk_of_none (full : Bytes) (t : Ty) (h : NoEmptyStruct t) : EmptyStructsOk full t :=
+  EmptyStructsOk.of_noEmptyStruct full t h
+
+/-- the full tag contains no DEFINITION `{n`…` for the names `n` of the zero-field structs of `t` -/
+theorem c06_emptyStructsOk_of_noStructDef (full : Bytes) (t : Ty)
+    (h : (emptyStructNames t).all (noStructDef full) = true) : EmptyStructsOk full t :=
+  emptyStructsOk_of_noStructDef full t h
+
+/-- at the level of types: no zero-field struct of `t` has the name of a struct WITH fields occurring in
+    the type `tTop` whose tag is the full tag (`defNames`).  (A struct name that is a proper prefix of
+    another struct name is harmless: the lookup continues.) -/
+theorem c06_emptyStructsOk_of_names (tTop t : Ty) (hTop : TyOk tTop = true) (ht : TyOk t = true)
+    (h : ∀ n ∈ emptyStructNames t, n ∉ defNames tTop) : EmptyStructsOk (tag tTop) t :=
+  emptyStructsOk_of_names tTop t hTop ht h
+
+/-- top level, with decidable hypotheses only -/
+theorem c06_visit_top' (t : Ty) (v : Val) (rest : Bytes)
+    (hok : TyOk t = true) (hv : hasTy t v = true) (hd : depth t < 2048)
+    (hnames : ∀ n ∈ emptyStructNames t, n ∉ defNames t) :
+    Visit.visit recorder (tag t) [] (encode t v ++ rest) = .ok (events t v, rest) :=
+  c06_visit_top t v rest hok hv hd (c06_emptyStructsOk_of_names t t hok hok hnames)
+
+/-! ### the hypotheses are satisfiable -/
+
+/-- `struct S { xs: [i]; o: <0 l>; e: enum E:i {A=0,B=1}; m: struct Em {}; r: [()] }` -/
+def exT : Ty :=
+  .struct [83] [
+    ([120, 115], .seq (.arith 105)),
+    ([111], .var [.null, .arith 108]),
+    ([101], .enum 105 [69] [([48], [65]), ([49], [66])]),
+    ([109], .struct [69, 109] []),
+    ([114], .seq (.tup []))]
+
+/-- `S{ xs = [1,2], o = 5, e = B, m = Em{}, r = 40 × () }` (the last field takes the repeat branch) -/
+def exV : Val :=
+  .tup [.seq [.num 1, .num 2], .alt 1 (.num 5), .num 1, .tup [], .seq (List.replicate 40 (.tup []))]
+
+example : TyOk exT = true := by decide
+example : depth exT < 2048 := by decide
+example : hasTy exT exV = true := by
+  simp [exT, exV, hasTy, hasTyFields, hasTyAll, hasTyNth, hasTyList, arithSize, List.replicate]
+example : emptyStructNames exT = [[69, 109]] := by decide
+example : EmptyStructsOk (tag exT) exT := c06_emptyStructsOk_of_noStructDef _ _ (by decide)
+example : EmptyStructsOk (tag exT) exT := c06_emptyStructsOk_of_names exT exT (by decide) (by decide) (by decide)
+
+example : Visit.visit recorder (tag exT) [] (encode exT exV) = .ok (events exT exV, []) := by
+  have := c06_visit_top exT exV [] (by decide)
+    (by simp [exT, exV, hasTy, hasTyFields, hasTyAll, hasTyNth, hasTyList, arithSize, List.replicate])
+    (by decide) (c06_emptyStructsOk_of_noStructDef _ _ (by decide))
+  simpa using this
+
+/-- the argument tags `i [c {Em}` of a three-argument log statement split into the three tags -/
+example : splitAll 4 (tagList [.arith 105, .seq (.arith 99), .struct [69, 109] []])
+    = ([[105], [91, 99], [123, 69, 109, 125]], []) := by
+  have := c06_split_args [.arith 105, .seq (.arith 99), .struct [69, 109] []]
+    (by intro t ht; simp only [List.mem_cons, List.not_mem_nil, or_false] at ht
+        rcases ht with rfl | rfl | rfl <;> decide) 4 (by decide)
+  rw [this]; decide
 
 end BinlogVerif.C06
